@@ -705,12 +705,14 @@ func (v *Protocol) WritePacket(pkt Packet, streamID int) (err error) {
 	m.streamID = uint32(streamID)
 	m.betterCid = pkt.BetterCid()
 
-	if err = v.WriteMessage(m); err != nil {
-		return oe.WithMessage(err, "write message")
-	}
-
+	// Register the request before its bytes are handed to the transport, because
+	// the peer may answer, and the reader may decode the answer, before the write returns.
 	if err = v.onPacketWriten(m, pkt); err != nil {
 		return oe.WithMessage(err, "on write packet")
+	}
+
+	if err = v.WriteMessage(m); err != nil {
+		return oe.WithMessage(err, "write message")
 	}
 
 	return
